@@ -19,13 +19,29 @@ func init() {
 }
 
 type histStep struct {
-	Op      string `json:"op"`
-	Outcome string `json:"outcome"`
-	FP      string `json:"fp"`
-	Rest    string `json:"rest"`
+	Op      string            `json:"op"`
+	Outcome string            `json:"outcome"`
+	FP      string            `json:"fp"`
+	Rest    string            `json:"rest"`
+	Per     map[string]string `json:"per,omitempty"`
+}
+
+// volatile holds package variables whose content differs between identical
+// replays (e.g. state seeded from the clock or from the OS generator); they are
+// left out of the state key and reported.
+var volatile = map[string]bool{}
+
+func volatileList() string {
+	var l []string
+	for n := range volatile {
+		l = append(l, n)
+	}
+	sort.Strings(l)
+	return strings.Join(l, ",")
 }
 
 type histOut struct {
+	InitialPer    map[string]string `json:"initial_per"`
 	Initial       string     `json:"initial"`
 	InitialRest   string     `json:"initial_rest"`
 	Steps         []histStep `json:"steps"`
@@ -39,7 +55,7 @@ type histOut struct {
 // runHistory executes one call history in a fresh worker process.
 func runHistory(worker string, ops []string) (*histOut, error) {
 	cmd := exec.Command(worker, "-prop", "hist", strings.Join(ops, ","))
-	cmd.Env = append(goEnv(), "VERIF_DIR="+verifDir, "GOMAXPROCS=2", "VERIF_FP_FROM=-2")
+	cmd.Env = append(goEnv(), "VERIF_DIR="+verifDir, "GOMAXPROCS=2", "VERIF_FP_FROM=-2", "VERIF_FP_EXCLUDE="+volatileList())
 	out, err := cmd.Output()
 	if err != nil {
 		return nil, fmt.Errorf("history %v: %v", ops, err)
@@ -123,9 +139,58 @@ func (e *histExplorer) checkRun(hist []string, h *histOut) {
 	}
 }
 
-// explore is a breadth-first search over call histories to a fixpoint of the
-// set of package-state fingerprints.
+// errRestart is returned when new volatile variables were identified.
+var errRestart = fmt.Errorf("restart")
+
+// markVolatile runs the same history three times and marks every variable
+// whose digest differs between the runs; it returns how many were added.
+func markVolatile(worker string, hist []string) (int, error) {
+	outs, err := parallelHist(worker, [][]string{hist, hist, hist})
+	if err != nil {
+		return 0, err
+	}
+	added := 0
+	per := func(h *histOut) map[string]string {
+		if len(h.Steps) == 0 {
+			return h.InitialPer
+		}
+		return h.Steps[len(h.Steps)-1].Per
+	}
+	for n, d := range per(outs[0]) {
+		for _, o := range outs[1:] {
+			if per(o)[n] != d && !volatile[n] {
+				volatile[n] = true
+				added++
+			}
+		}
+	}
+	return added, nil
+}
+
+// explore runs exploreOnce, restarting when volatile variables are found.
 func (e *histExplorer) explore() error {
+	for attempt := 0; attempt < 8; attempt++ {
+		e.baseline = map[string]string{}
+		e.transitions = 0
+		e.distinctOut = map[string]bool{}
+		e.res.Violations = e.res.Violations[:0]
+		e.res.ViolationCount = 0
+		e.res.Exhaustive = true
+		err := e.exploreOnce()
+		if err != errRestart {
+			if len(volatile) > 0 {
+				e.res.Exhaustive = false
+				e.res.Extra["volatile_variables_excluded_from_state_key"] = volatileList()
+			}
+			return err
+		}
+	}
+	return fmt.Errorf("package state keeps changing between identical replays (volatile: %s)", volatileList())
+}
+
+// exploreOnce is a breadth-first search over call histories to a fixpoint of the
+// set of package-state fingerprints.
+func (e *histExplorer) exploreOnce() error {
 	// baseline: every op alone in a fresh process
 	var hs [][]string
 	for _, op := range e.ops {
@@ -154,6 +219,11 @@ func (e *histExplorer) explore() error {
 			return fmt.Errorf("operation %s is not deterministic in a fresh process: %q vs %q", op, outs2[i].Steps[0].Outcome, e.baseline[op])
 		}
 		if outs2[i].Initial != init.Initial {
+			if n, err := markVolatile(e.worker, nil); err != nil {
+				return err
+			} else if n > 0 {
+				return errRestart
+			}
 			return fmt.Errorf("initial state fingerprint is not deterministic")
 		}
 	}
@@ -177,6 +247,11 @@ func (e *histExplorer) explore() error {
 			if len(hist) > 1 {
 				prefixFP := h.Steps[len(hist)-2].FP
 				if _, ok := e.states[prefixFP]; !ok {
+					if n, err := markVolatile(e.worker, hist[:len(hist)-1]); err != nil {
+						return err
+					} else if n > 0 {
+						return errRestart
+					}
 					return fmt.Errorf("replaying history %v reached an unknown state (non-deterministic state)", hist[:len(hist)-1])
 				}
 			}
@@ -327,7 +402,7 @@ func runC07(tier string) int {
 	r.Transitions = e.transitions
 	r.Evaluations = e.transitions
 	r.Distinct = int64(len(e.distinctOut))
-	r.Rule = "explicit-state BFS over call histories that never swap the randomness source (validations, encodings, rejected calls, seed, String, and NewMnemonic on the default source for all five counts); every transition executed in a fresh process; state = fingerprint of all package-level variables; invariant checked at every process start and after every history: the value held by the package's source variable (read through the verif hook, then restored) is identical (==) to crypto/rand.Reader. That NewMnemonic's output is a function of the source's bytes only is decided by C06 for every injected source. distinct_nontrivial = distinct (operation, outcome) pairs observed"
+	r.Rule = "explicit-state BFS over call histories that never swap the randomness source (validations, encodings, rejected calls, seed, String, and NewMnemonic on the default source for all five counts); every transition executed in a fresh process; state = fingerprint of all package-level variables; invariant checked at every process start and after every history: the value held by the package's source variable (read through the verif hook, then restored) is identical (==) to crypto/rand.Reader. Second phase, in a build whose import of crypto/rand is redirected to a position-coded stand-in stream (overlay, nothing written to the repository): every call sequence (p)^* of 40 default-source NewMnemonic calls for every pattern p of length <=2 (thorough <=3) over the five counts, languages rotating: each result must be a valid sentence whose entropy occurs in the bytes the default source delivered and overlaps no window used by an earlier call (nothing mixed in, substituted or reused). For injected sources the byte-exact dependence is C06's oracle. distinct_nontrivial = distinct (operation, outcome) pairs observed"
 	r.Extra["operations"] = len(ops)
 	r.Extra["reached_fixpoint"] = r.Exhaustive
 	r.Extra["traces_validated_against_impl"] = e.transitions
@@ -336,6 +411,13 @@ func runC07(tier string) int {
 			r.Samples = append(r.Samples, map[string]interface{}{"state": fp, "shortest_history": strings.Join(e.states[fp], ","), "tables_built": e.lazyOf[fp], "source": "crypto/rand.Reader"})
 		}
 	}
+	nSeq, nCalls, redirected := c07DefaultPath(tier, r)
+	r.Extra["default_path_sequences"] = nSeq
+	r.Extra["default_path_calls"] = nCalls
+	r.Extra["files_with_crypto_rand_redirected"] = redirected
+	r.Transitions += int64(nCalls)
+	r.Evaluations += int64(nCalls)
+	r.Extra["traces_validated_against_impl"] = r.Transitions
 	r.Assumptions = []string{"statistical quality of the OS CSPRNG is out of scope; identity with crypto/rand.Reader plus C06's byte-exact dependence reduce it to the operating system", "crypto/rand.Reader itself is not replaced by the package (its dynamic type is recorded)"}
 	return finish("C07", tier, r, t0)
 }
@@ -390,4 +472,113 @@ func replayHist(path string) int {
 	}
 	fmt.Println("replay: history passes on the current tree")
 	return 0
+}
+
+type vrandCall struct {
+	Op       string `json:"op"`
+	Mnemonic string `json:"mnemonic"`
+	Err      string `json:"err"`
+	Offset   int    `json:"offset"`
+	Len      int    `json:"len"`
+	Problem  string `json:"problem"`
+}
+
+type vrandOut struct {
+	SourceIsStandIn bool        `json:"source_is_stand_in"`
+	Calls           []vrandCall `json:"calls"`
+	Delivered       int         `json:"delivered"`
+}
+
+// c07DefaultPath executes default-source call sequences in the build with the
+// controlled stand-in for crypto/rand.
+func c07DefaultPath(tier string, r *Result) (nSeq, nCalls, redirected int) {
+	w, redirected := buildWorkerV()
+	counts := []int{12, 15, 18, 21, 24}
+	maxPat := 2
+	if tier == "thorough" {
+		maxPat = 3
+	}
+	var pats [][]int
+	var rec func(p []int)
+	rec = func(p []int) {
+		if len(p) > 0 {
+			pats = append(pats, append([]int(nil), p...))
+		}
+		if len(p) == maxPat {
+			return
+		}
+		for _, c := range counts {
+			rec(append(p, c))
+		}
+	}
+	rec(nil)
+	const depth = 40
+	type res struct {
+		ops string
+		out vrandOut
+		err error
+	}
+	results := make([]res, len(pats))
+	var wg sync.WaitGroup
+	ch := make(chan int, len(pats))
+	for i := range pats {
+		ch <- i
+	}
+	close(ch)
+	for k := 0; k < runtime.NumCPU(); k++ {
+		wg.Add(1)
+		go func() {
+			defer wg.Done()
+			for i := range ch {
+				var ops []string
+				for j := 0; j < depth; j++ {
+					ops = append(ops, fmt.Sprintf("%d:%d", pats[i][j%len(pats[i])], (i+j)%10))
+				}
+				results[i].ops = strings.Join(ops, ",")
+				cmd := exec.Command(w, "-prop", "vrand", results[i].ops)
+				cmd.Env = append(goEnv(), "VERIF_DIR="+verifDir, "GOMAXPROCS=2")
+				out, err := cmd.Output()
+				if err != nil {
+					results[i].err = err
+					continue
+				}
+				results[i].err = json.Unmarshal(out, &results[i].out)
+			}
+		}()
+	}
+	wg.Wait()
+	for _, x := range results {
+		if x.err != nil {
+			die("default-path run %s: %v", x.ops, x.err)
+		}
+		nSeq++
+		if redirected > 0 && !x.out.SourceIsStandIn {
+			r.ViolationCount++
+			if len(r.Violations) < 40 {
+				r.Violations = append(r.Violations, Violation{Key: "vrand-source", What: "in the build with crypto/rand redirected, the package's source variable does not hold the stand-in for crypto/rand.Reader", Case: map[string]interface{}{"kind": "vrand", "ops": ""}})
+			}
+		}
+		for i, c := range x.out.Calls {
+			nCalls++
+			if c.Problem != "" && redirected > 0 {
+				r.ViolationCount++
+				prefix := strings.Join(strings.Split(x.ops, ",")[:i+1], ",")
+				if len(r.Violations) < 40 {
+					r.Violations = append(r.Violations, Violation{Key: "vrand:" + prefix,
+						What: fmt.Sprintf("default-source call #%d (%s words, language %s) of sequence [%s]: %s", i+1, strings.Split(c.Op, ":")[0], strings.Split(c.Op, ":")[1], prefix, c.Problem),
+						Case: map[string]interface{}{"kind": "vrand", "ops": prefix}})
+				}
+				break
+			}
+		}
+	}
+	if len(results) > 0 && len(results[0].out.Calls) > 2 {
+		c := results[len(results)-1].out.Calls[1]
+		r.Samples = append(r.Samples, map[string]interface{}{"default_path_sequence": results[len(results)-1].ops[:40] + "...", "call": c.Op, "entropy_window_in_source_stream": []int{c.Offset, c.Offset + c.Len}})
+	}
+	if redirected == 0 {
+		r.Exhaustive = false
+		r.Extra["default_path_note"] = "no file of the package imports crypto/rand: the default-path phase could not control the source (the identity invariant of phase 1 is then the deciding check)"
+	}
+	return
 }
